@@ -528,6 +528,18 @@ func (p c13) Run(w *mon.Worker, idx int) mon.Result {
 	if len(leaves) > 40 {
 		leaves = leaves[:40]
 	}
+	// ... and every non-empty container below the root: converting a SUB-tree resolves the aliases and merge
+	// keys in it without the rest of the document having been exploded first
+	nc := 0
+	want.Walk(nil, func(pth []any, n *ref.V) {
+		if !n.IsScalar() && len(n.A)+len(n.M) > 0 && len(pth) > 0 && nc < 12 {
+			leaves = append(leaves, append([]any{}, pth...))
+			nc++
+		}
+	})
+	if nc > 0 {
+		res.Tags = append(res.Tags, "subtree_conversion")
+	}
 	for _, pth := range leaves {
 		var sb strings.Builder
 		for _, k := range pth {
